@@ -465,6 +465,7 @@ MonStep(Hh, B, T, e) ==
   \cup (IF Has("C10") /\ e.ev = "gen" THEN C10_Builtin(B, e.name, e.instrs) ELSE {})
   \cup (IF Has("C12") /\ e.ev = "gen" THEN C12_Gen(Hh, B, e.name, e.instrs) ELSE {})
   \cup (IF Has("C18") /\ upd THEN C18_Step(B, T, e.v, LAMBDA a, b : Hh.vrank[a] < Hh.vrank[b], "") ELSE {})
+  \cup (IF Has("C18") /\ e.ev \in {"instr", "update"} THEN C18_Join(B, T, e.v) ELSE {})
   \cup (IF Has("C18") /\ e.ev = "instr" /\ e.v \in DOMAIN B.veh /\ e.v \in DOMAIN T.veh
         THEN C18_Step(B, T, e.v, LAMBDA a, b : Hh.vrank[a] < Hh.vrank[b], "by_instruction/") ELSE {})
   \cup (IF Has("C04") THEN (IF upd /\ "num" \in DOMAIN e THEN C04_Update(B, T, e.v, e.num, e.out)
